@@ -106,11 +106,14 @@ def build_and_solve(case, T):
         hh.AlphaFin = fl(case['a2'])
         tf.TaxRate = fl(case['theta'])
         gpath = [0.0] + [fl(g) for g in case['G'][:T]]
+        # a path may be handed over as text, as a list or as a tuple (a function of the case)
+        spelling = (lambda p: repr(p), lambda p: list(p), lambda p: tuple(p))[(int(core.digest(case), 16) // 3) % 3]
+        out['path_spelling'] = ('text', 'list', 'tuple')[(int(core.digest(case), 16) // 3) % 3]
         if model_name == 'PC':
             gpath[0] = gpath[1]
             tre, dep = c['TRE'], c['DEP']
-            tre.SetExogenous('DEM_GOOD', repr(gpath))
-            dep.SetExogenous('r', repr([fl(x) for x in case['r'][:T + 1]]))
+            tre.SetExogenous('DEM_GOOD', spelling(gpath))
+            dep.SetExogenous('r', spelling([fl(x) for x in case['r'][:T + 1]]))
             hh.SetEquationRightHandSide('L0', lit(case['l0']))
             hh.SetEquationRightHandSide('L1', lit(case['l1']))
             hh.SetEquationRightHandSide('L2', lit(case['l2']))
@@ -118,7 +121,7 @@ def build_and_solve(case, T):
             m.AddInitialCondition('TRE', 'F', -fl(case['H0']))
             m.AddInitialCondition('HH', 'DEM_DEP', fl(case['B0']))
         else:
-            c['GOV'].SetExogenous('DEM_GOOD', repr(gpath))
+            c['GOV'].SetExogenous('DEM_GOOD', spelling(gpath))
             m.AddInitialCondition('HH', 'F', fl(case['H0']))
             m.AddInitialCondition('GOV', 'F', -fl(case['H0']))
             if model_name == 'SIMEX1':
@@ -315,10 +318,13 @@ def random_case(rnd, model, T):
         while a1 * (1 - th) > Fraction(6, 10):
             a1 = a1 * Fraction(9, 10)
             a1 = Fraction(int(a1 * 10 ** digits), 10 ** digits)
+    gd = rnd.choice([1, 1, 7])
+    rd = rnd.choice([3, 3, 8])
     case = {'model': model, 'a1': rat(a1), 'a2': rat(dec(0.05, 0.6, digits)), 'theta': rat(th),
             'l0': rat(dec(0.3, 0.8, digits)), 'l1': rat(dec(1, 8, 2)), 'l2': rat(dec(0.0, 0.05, digits)),
-            'G': [rat(dec(5, 60, 1)) for _ in range(T)],
-            'r': [rat(dec(0.0, 0.08, 3)) for _ in range(T + 1)],
+            # (paths with few and with many decimals: a path entry must reach the solver as stated)
+            'G': [rat(dec(5, 60, gd)) for _ in range(T)],
+            'r': [rat(dec(0.0, 0.08, rd)) for _ in range(T + 1)],
             'H0': rat(dec(0, 150, 1)), 'YD0': rat(dec(0, 100, 1)), 'B0': [0, 1]}
     if model == 'PC':
         case['B0'] = rat(F(case['H0']) * Fraction(rnd.randint(0, 9), 10))
